@@ -97,7 +97,7 @@ claim("C10", "DESIGN.md 5/C10 and 9", "Lean theorems: characters -> tokens -> pr
       "(blanks, tabs, LF or CR LF, comments) whose tokens render a program (commands, named arguments, numbers, quoted and bare-identifier strings, lists nested to any depth, trailing commas or not) "
       "parses to exactly that program with every node on the line it starts on; built from lexS_gap / spells_* (character level, Lemmas/Lex, incl. lexAll_fuel: the lexer's recursion bound never loses a token) and "
       "program_renders (token level, mutual induction over values; it exposed and fixed an inadequate recursion budget of the model). NOT covered by the theorem, and decided by the correspondence and the "
-      "round-trip oracle on the implementation only: tuples (key: value lists), unquoted non-identifier strings, exponent-form decimals, quoted strings spanning lines, EEMS 2.0 command form, and the "
+      "round-trip oracle on the implementation only: tuples with unquoted keys or values (quoted keys with quoted/integer values are covered), unquoted non-identifier strings, exponent-form decimals, quoted strings spanning lines, EEMS 2.0 command form, and the "
       "rejection of malformed text (partial as proof for those). The executable model is compared with Parser().parse on every run over renderings of random abstract programs under random layouts, their "
       "single-character mutations and token soups (whole tree with line numbers, or error class). Known finding F10 (unquoted multi-token strings) is re-run and listed.",
       XB)
@@ -109,8 +109,8 @@ claim("C11", "DESIGN.md 5/C11", "Lean theorems on line counting + differential c
 claim("C15", "DESIGN.md 5/C15 and 9", "Lean theorems: serialize_parse_roundtrip (whole programs) + quote_roundtrip (every string) + character-exact correspondence of to_string() + load-back oracle",
       "Theorems: MPilot.C15P.serialize_parse_roundtrip - the text the serializer model writes for a program (commands in order, one argument per line, strings quoted, integers in decimal, references/booleans/None "
       "as words, lists to any depth) is parsed back as exactly that program: same commands, order, argument names and values, version 3, every node on the line the serializer put it on; built from valSeg/rowSeg/cmdSeg/progSeg "
-      "(the text lexes to the expected tokens: integers via spells_toString_int, strings via MPilot.C15.quote_roundtrip for every string) and C10.program_renders. Outside the theorem: decimals (positional printing) and metadata "
-      "tuples - decided by the correspondence and the round-trip oracle. Model/Serialize is compared character by character with Program.to_string() on every run (programs built from source and through add_command), "
+      "(the text lexes to the expected tokens: integers via spells_toString_int, strings via MPilot.C15.quote_roundtrip for every string) and C10.program_renders. Metadata tuples are covered (values written as quoted text). Outside the theorem: decimals as argument values (positional printing) - "
+      "decided by the correspondence and the round-trip oracle. Model/Serialize is compared character by character with Program.to_string() on every run (programs built from source and through add_command), "
       "and every serialised program is loaded back and compared argument by argument and by results on the implementation.",
       XB)
 claim("C16", "DESIGN.md 5/C16", "Lean theorems over tables regenerated from the source (decide) + conversion-rule theorems + whole-pipeline correspondence + hand-mapped equivalence oracle",
